@@ -1,0 +1,20 @@
+//go:build verif
+
+package exit
+
+import "sort"
+
+// VerifConnections returns the connection records currently tracked, sorted
+// by the key they are stored under (verification harness only).
+func (h *Handler) VerifConnections() (keys []uint64, recs []*ActiveConnection) {
+	h.mu.RLock()
+	defer h.mu.RUnlock()
+	for k := range h.connections {
+		keys = append(keys, k)
+	}
+	sort.Slice(keys, func(i, j int) bool { return keys[i] < keys[j] })
+	for _, k := range keys {
+		recs = append(recs, h.connections[k])
+	}
+	return keys, recs
+}
